@@ -1,5 +1,6 @@
 """Executor shared by C01 and C02: renders abstract SWC files (spec/SwcIO.tla) to text / bytes / files, drives the real
 reader and writer, projects what came back to integers and strings."""
+from harness import lib
 import io, os, shutil, tempfile, warnings
 import numpy as np
 
@@ -112,7 +113,7 @@ def exec_read(c):
     elif o["src"] == 1:
         src = io.BytesIO(data)
     else:
-        src = os.path.join(scratch(), "f%d.swc" % c["cid"])
+        src = os.path.join(scratch(), "f%d.swc" % lib.vid(c))
         with open(src, "wb") as f:
             f.write(data)
     kw = dict(sort_nodes=(o["mode"] == 0), reset_index=(o["mode"] == 1), encoding=o["enc"])
@@ -185,7 +186,7 @@ def exec_roundtrip(c):
     src = c["src"]
     kw = dict(id_offset=c["off"], comments=bool(c["wc"]), source=(False if src == "" else (True if src == "Unknown" else src)))
     if c["kind"] == 2:
-        p = os.path.join(scratch(), "rt%d.swc" % c["cid"])
+        p = os.path.join(scratch(), "rt%d.swc" % lib.vid(c))
         try:
             t.to_swc(p, **kw)
             text = open(p, encoding="utf-8").read()
@@ -202,7 +203,63 @@ def exec_roundtrip(c):
             "rows2": rows_of_tree(t3), "com2": [proj_comment(x) for x in t3.comments]}
 
 
+BB = 10 ** 8
+
+
+def limbs(n):
+    out = []
+    while n:
+        out.append(int(n % BB)); n //= BB
+    return out
+
+
+def bigval(v):
+    """float -> {s, m: base-10^8 limbs (least significant first) of floor(|v| * 10^5), e: exact?}, computed exactly"""
+    from fractions import Fraction
+    f = Fraction(float(v))
+    m = abs(f) * 100000
+    return {"s": -1 if f < 0 else 1, "m": limbs(m.numerator // m.denominator), "e": 1 if m.denominator == 1 else 0}
+
+
+def bigtok(tk):
+    """a written float token -> {s, m: limbs of |token| * 10^4}; a token with more than four decimals or not a number gets m = [-1]"""
+    from fractions import Fraction
+    try:
+        q = Fraction(tk) * 10000
+    except (ValueError, ZeroDivisionError):
+        return {"s": 1, "m": [-1]}
+    if q.denominator != 1:
+        return {"s": 1, "m": [-1]}
+    return {"s": -1 if tk.strip().startswith("-") else 1, "m": limbs(abs(int(q)))}
+
+
+def exec_roundtrip_big(c):
+    """C01 for magnitudes beyond 2*10^4 (up to the largest float32): tokens and read-back values as exact limb numbers"""
+    from swcgeom.core import Tree
+    t = mk_rt_tree(c)
+    kw = dict(id_offset=c["off"], source=False)
+    if c["kind"] == 2:
+        p = os.path.join(scratch(), "rtb%d.swc" % lib.vid(c))
+        try:
+            t.to_swc(p, **kw)
+            text = open(p, encoding="utf-8").read()
+            t2 = Tree.from_swc(p)
+        finally:
+            if os.path.exists(p):
+                os.remove(p)
+    else:
+        text = t.to_swc(**kw)
+        t2 = Tree.from_swc(io.StringIO(text) if c["kind"] == 0 else io.BytesIO(text.encode("utf-8")))
+    rows = [ln.split() for ln in text.split("\n") if ln.strip() and not ln.startswith("#")]
+    return {"ids": [int(r[0]) for r in rows], "pids": [int(r[6]) for r in rows],
+            "tok": [[bigtok(r[j]) for j in (2, 3, 4, 5)] for r in rows],
+            "bpids": [int(v) for v in t2.pid()], "btys": [int(v) for v in t2.type()],
+            "back": [[bigval(col[i]) for col in (t2.x(), t2.y(), t2.z(), t2.r())] for i in range(len(t2.id()))]}
+
+
 def execute(c):
+    if c["op"] == "roundtrip_big":
+        return exec_roundtrip_big(c)
     return exec_read(c) if c["op"] == "read" else exec_roundtrip(c)
 
 
